@@ -231,7 +231,7 @@ class SetEncoder(encoder.SequenceEncoder):
                 # wrap open type blob if needed
                 if namedType and namedType.openType:
                     wrapType = namedType.asn1Object
-                    if wrapType.tagSet and not wrapType.isSameTypeWith(comp):
+                    if wrapType.tagSet and not self._isWrapped(comp, wrapType):
                         chunk = encodeFun(chunk, wrapType, **options)
 
             substrate += chunk
